@@ -45,3 +45,20 @@ Print Assumptions C06_78_hidden.
 Theorem C06_name : forall code, 0 <= code < 256 -> nrc_name_spec code (nrc_name code).
 Proof. exact nrc_names_faithful. Qed.
 Print Assumptions C06_name.
+
+(* ---- the code is the model (regenerated each run): the real Client.send_request executed on a symbolic clock (tools/symtrans.py,
+   Gen/Fn_SendRequest.v) - pending frames with a callback configured; the negative / pending shapes without callback are among the C05 statements, whose file this one builds on ---- *)
+From UDS Require Import Gen.Fn_SendRequest Model.Services Proofs.Tie_send_common Proofs.Tie_send_cb.
+
+Theorem C06_code_send_request_cb_W : forall cfg T P2 P2S now a1, timing_cb cfg (Some T) P2 P2S true -> now < a1 ->
+  fn_send_request_cb_W T P2 P2S now a1 = ret (obs_sr (send_request cfg st_init tp_req (-1) now [(a1, Frame [127; 62; 120])])).
+Proof. exact tie_send_request_cb_W. Qed.
+Print Assumptions C06_code_send_request_cb_W.
+Theorem C06_code_send_request_cb_WP : forall cfg T P2 P2S now a1 a2, timing_cb cfg (Some T) P2 P2S true -> now < a1 ->
+  fn_send_request_cb_WP T P2 P2S now a1 a2 = ret (obs_sr (send_request cfg st_init tp_req (-1) now [(a1, Frame [127; 62; 120]); (a2, Frame [126; 0])])).
+Proof. exact tie_send_request_cb_WP. Qed.
+Print Assumptions C06_code_send_request_cb_WP.
+Theorem C06_code_send_request_cb_WW : forall cfg T P2 P2S now a1 a2, timing_cb cfg (Some T) P2 P2S true -> now < a1 ->
+  fn_send_request_cb_WW T P2 P2S now a1 a2 = ret (obs_sr (send_request cfg st_init tp_req (-1) now [(a1, Frame [127; 62; 120]); (a2, Frame [127; 62; 120])])).
+Proof. exact tie_send_request_cb_WW. Qed.
+Print Assumptions C06_code_send_request_cb_WW.
